@@ -111,6 +111,16 @@ def valueAll (U : Universe) (f : Nat → List V → V) (fails : Nat → Bool) (f
     let (s2, rs) := valueAll U f fails fuel s1 ts
     (s2, r :: rs)
 
+/-- `for task in forced: task.value` with a run that raises: the loop ends at the first failed request -/
+def valueAllStop (U : Universe) (f : Nat → List V → V) (fails : Nat → Bool) (fuel : Nat) : St V → List Nat → St V × List (Option V)
+  | s, [] => (s, [])
+  | s, t :: ts =>
+    match value U f fails fuel s t with
+    | (s1, none) => (s1, [none])
+    | (s1, some v) =>
+      let (s2, rs) := valueAllStop U f fails fuel s1 ts
+      (s2, some v :: rs)
+
 inductive Op where
   /-- `task.value` on object `i`; `failing` = objects whose body raises during this request -/
   | value (i : Nat) (failing : List Nat)
@@ -119,6 +129,9 @@ inductive Op where
   /-- `chain.force(S, recompute, delete_data)` on the chain with objects `nodes` (dependency order);
   `order` = the order in which `recompute` requests the forced tasks (a permutation of the forced set) -/
   | chainForce (nodes S : List Nat) (del recompute : Bool) (order : List Nat)
+  /-- `chain.force(S, recompute=True, delete_data=del)` during which the bodies of `failing` raise: the exception leaves
+  `force` at the first failed request of `order` -/
+  | chainForceF (nodes S : List Nat) (del : Bool) (order failing : List Nat)
   /-- `has_data`, `data_path`, `run_info`, `log`, `tasks_df`, building a chain … -/
   | inspect (i : Nat)
 deriving Repr
@@ -141,6 +154,11 @@ def step (U : Universe) (f : Nat → List V → V) (fuel : Nat) (s : St V) : Op 
       let (s2, rs) := valueAll U f (fun _ => false) fuel s1 order
       (s2, .vals F rs)
     else (s1, .forced F)
+  | .chainForceF nodes S del order failing =>
+    let F := descendants U S nodes []
+    let s1 := forceAll U del s F
+    let (s2, rs) := valueAllStop U f (fun j => failing.contains j) fuel s1 order
+    (s2, .vals F rs)
   | .inspect i =>
     let o := obj U i
     (s, .hasData (o.persist && (s.store o.loc).isSome))
